@@ -140,7 +140,7 @@ theorem patonLoop_indep (hsym : ∀ u v, a.adj u v = a.adj v u) (hirr : ∀ v, a
         simp only at hres
         have o1 := po_step hsym hirr o hX hscan
         have pc0 : PC a { st with X := X' } := ⟨pc.tsz, pc.rin, pc.rnd, pc.cnt⟩
-        have pi0 : PI a { st with X := X' } nt := ⟨pi.fnt, pi.ntnd, pi.ntrm, pi.trm, pi.ntt⟩
+        have pi0 : PI a { st with X := X' } nt := ⟨pi.fnt, pi.ntnd, pi.ntrm, pi.trm, pi.ntt, pi.rcov⟩
         have hus : ∀ u ∈ (a.nbrs v).filter fun u => !edgeRemoved st.removed u v,
             u < a.n ∧ a.adj v u = true ∧ edgeRemoved st.removed u v = false := fun u hu => by
           obtain ⟨h1, h2⟩ := List.mem_filter.1 hu
@@ -234,7 +234,8 @@ theorem paton_fund_private (a : G) (hsym : ∀ u v, a.adj u v = a.adj v u) (hirr
       ntnd := List.nodup_nil
       ntrm := fun e he => (by cases he)
       trm := fun x _ ht hx0 => absurd (hin0 x ht) hx0
-      ntt := fun e he => (by cases he) }
+      ntt := fun e he => (by cases he)
+      rcov := fun e he => (by simp [patonInit] at he) }
   obtain ⟨pc, nt, pi⟩ := patonLoop_indep hsym hirr fuel _ [] o0 pc0 pi0 st hres
   have hlen : nt.length = st.fund.length := pi.fnt.length_eq.symm
   have hloop : ∀ e ∈ st.removed, e.1 ≠ e.2 := by
